@@ -37,15 +37,18 @@ type c01Mon struct {
 	nsParked map[int]*verifsched.Arrival
 }
 
-func nsName(n int) string { return fmt.Sprintf("ns%d", n) }
-func nsNum(name string) int {
-	n, _ := strconv.Atoi(strings.TrimPrefix(name, "ns"))
+// Namespace names are unique per case: the informer factories of the operator are process-wide and
+// keyed by (resource, namespace, selectors), so two cases must never watch the same namespace name.
+func (m *c01Mon) nsName(n int) string { return fmt.Sprintf("%s-ns%d", m.key, n) }
+func (m *c01Mon) nsNum(name string) int {
+	n, _ := strconv.Atoi(name[strings.LastIndex(name, "-ns")+3:])
 	return n
 }
 
-func c01CreateNs(fc *fake.Cluster, n int) {
+func (m *c01Mon) createNs(n int) {
+	fc := m.fc
 	nsObj := &corev1.Namespace{}
-	nsObj.SetName(nsName(n))
+	nsObj.SetName(m.nsName(n))
 	nsObj.SetLabels(map[string]string{"verif": "yes"})
 	_, _ = fc.Client.CoreV1().Namespaces().Create(context.TODO(), nsObj, metav1.CreateOptions{})
 }
@@ -64,7 +67,7 @@ func newC01Mon(key string, static bool, initialNs []int) (*c01Mon, error) {
 		_, _ = m.fc.Client.CoreV1().Namespaces().Create(context.TODO(), nsObj, metav1.CreateOptions{})
 	}
 	for _, n := range initialNs {
-		c01CreateNs(m.fc, n)
+		m.createNs(n)
 	}
 	mc := &kem.MonitorConfig{ApiVersion: "v1", Kind: "ConfigMap", KeepFullObjectsInMemory: true,
 		EventTypes: []kemtypes.WatchEventType{kemtypes.WatchEventAdded, kemtypes.WatchEventModified, kemtypes.WatchEventDeleted},
@@ -87,14 +90,42 @@ func newC01Mon(key string, static bool, initialNs []int) (*c01Mon, error) {
 		defer m.mu.Unlock()
 		for _, o := range ev.Objects {
 			parts := strings.Split(o.Metadata.ResourceId, "/")
-			m.delivered[nsNum(parts[0])] = true
+			n := m.nsNum(parts[0])
+			if parts[2] == "early" {
+				n += 100 // the object that existed before the namespace's informers listed it
+			}
+			m.delivered[n] = true
 		}
 	}, log.NewNop())
 	if err := m.mon.CreateInformers(); err != nil {
 		cancel()
 		return nil, err
 	}
-	m.arrive = sched.Subscribe(key)
+	// the informers of this monitor use the same key for their own yield points: let those pass
+	raw := sched.Subscribe(key)
+	fwd := make(chan *verifsched.Arrival, 64)
+	m.arrive = fwd
+	go func() {
+		for {
+			select {
+			case a := <-raw:
+				if strings.HasPrefix(a.Name, "monitor.") {
+					fwd <- a
+				} else {
+					a.Release()
+				}
+			case <-ctx.Done():
+				for {
+					select {
+					case a := <-raw:
+						a.Release()
+					case <-time.After(50 * time.Millisecond):
+						return
+					}
+				}
+			}
+		}
+	}()
 	m.mon.Start(ctx)
 	return m, nil
 }
@@ -133,13 +164,13 @@ func (m *c01Mon) dump(inflight []int) string {
 	}
 	var ks []int
 	for k := range varying {
-		ks = append(ks, nsNum(k))
+		ks = append(ks, m.nsNum(k))
 	}
 	sort.Ints(ks)
 	var vs []string
 	for _, k := range ks {
 		en := true
-		for _, e := range varying[nsName(k)] {
+		for _, e := range varying[m.nsName(k)] {
 			en = en && e
 		}
 		vs = append(vs, fmt.Sprintf("%d:%d", k, b(en)))
@@ -204,8 +235,9 @@ func c01MonRun(c *Case, static bool, initial []int, script []string) {
 	if static {
 		ns = 1
 	}
-	var inflight []int
+	var inflight, early []int
 	all := append([]int(nil), initial...)
+	_ = m.mon.Snapshot() // the Synchronization view: everything created from here on is a later change
 	c.Op(fmt.Sprintf("m init statics=%d ns=%s", ns, joinInts(initial)), m.dump(nil))
 	for _, a := range script {
 		f := strings.Fields(a)
@@ -224,7 +256,21 @@ func c01MonRun(c *Case, static bool, initial []int, script []string) {
 			}
 		case "nsStore":
 			n, _ := strconv.Atoi(f[1])
-			c01CreateNs(m.fc, n)
+			m.createNs(n)
+			if a := m.waitPoint("monitor.ns.callback", c01Wait); a == nil {
+				c.Inconcl = "namespace callback did not arrive"
+				return
+			} else {
+				if len(f) > 2 && f[2] == "early" {
+					// an object created together with its namespace, before the operator lists it
+					if err := c01CreateCM(m.fc, m.nsName(n), "early"); err != nil {
+						c.Inconcl = "cannot create object: " + err.Error()
+						return
+					}
+					early = append(early, n)
+				}
+				a.Release()
+			}
 			if a := m.waitPoint("monitor.ns.stored", c01Wait); a == nil {
 				c.Inconcl = "namespace callback did not arrive"
 				return
@@ -254,19 +300,12 @@ func c01MonRun(c *Case, static bool, initial []int, script []string) {
 			return
 		}
 		c.Note("mact:" + f[0])
+		if f[0] == "nsStore" {
+			a = "nsStore " + f[1] // `early` is not a protocol matter: the model abstracts from objects
+		}
 		c.Op("m "+a, m.dump(inflight))
 	}
-	// everything has settled: no more scheduling (the informers' own yield points use the same key)
-	sched.Unsubscribe(m.key)
-drain:
-	for {
-		select {
-		case a := <-m.arrive:
-			a.Release()
-		default:
-			break drain
-		}
-	}
+	// everything has settled: no more scheduling
 	// change something in every namespace of the monitor
 	want := append([]int(nil), all...)
 	if static {
@@ -274,7 +313,7 @@ drain:
 	}
 	sort.Ints(want)
 	for _, n := range want {
-		if err := c01CreateCM(m.fc, nsName(n), "probe"); err != nil {
+		if err := c01CreateCM(m.fc, m.nsName(n), "probe"); err != nil {
 			c.Inconcl = "cannot create object: " + err.Error()
 			return
 		}
@@ -286,9 +325,13 @@ drain:
 		m.mu.Lock()
 		settled := true
 		for _, n := range want {
-			if !m.delivered[n] && buffered[nsName(n)] == 0 {
+			if !m.delivered[n] && buffered[m.nsName(n)] == 0 {
 				settled = false
 			}
+		}
+		for _, n := range early {
+			// the early object is reported by the informer before the probe object of its namespace
+			_ = n
 		}
 		m.mu.Unlock()
 		if settled {
@@ -306,6 +349,9 @@ drain:
 		got = append(got, n)
 	}
 	m.mu.Unlock()
+	for _, n := range early {
+		want = append(want, 100+n)
+	}
 	sort.Ints(got)
 	c.Oracle(fmt.Sprintf("m-delivered want=%s got=%s", joinInts(want), joinInts(got)))
 }
@@ -336,7 +382,11 @@ func c01GenMonScript(rng *Rng, firstNew int) []string {
 			script = append(script, ea[eaPos])
 			eaPos++
 		case "STORE":
-			script = append(script, fmt.Sprintf("nsStore %d", next))
+			if rng.Chance(35) {
+				script = append(script, fmt.Sprintf("nsStore %d early", next))
+			} else {
+				script = append(script, fmt.Sprintf("nsStore %d", next))
+			}
 			inflight = next
 			next++
 		case "READ":
@@ -366,6 +416,11 @@ func runC01Monitor(r *Run) {
 		c.Desc = "corpus: namespace stored before the range, flag read after the unlock"
 		c.Nontrivial = true
 		c01MonRun(c, false, nil, []string{"ea-begin", "nsStore 1", "ea", "ea-range", "ea-end", "nsRead 1", "nsStore 2", "nsRead 2"})
+	})
+	r.One(7, func(c *Case, rng *Rng) {
+		c.Desc = "corpus R5: an object created together with a namespace that appears after the unlock"
+		c.Nontrivial = true
+		c01MonRun(c, false, nil, []string{"ea-begin", "ea", "ea-range", "ea-end", "nsStore 1 early", "nsRead 1"})
 	})
 	n := r.N(40, 600)
 	r.Cases(500000, n, 8, func(c *Case, rng *Rng) {
